@@ -47,6 +47,9 @@ func (w *World) foldRound(overlay map[string][]byte, st *foldState) map[string][
 	if json.Unmarshal(anchorsJSON, &tab) != nil || tab.Funcs == nil {
 		return nil
 	}
+	if norm := w.normalizeSignatures(overlay, &tab); norm != nil {
+		return norm
+	}
 	out := map[string][]byte{}
 	// method values of new unexported types (`filler.insert` handed to a function: a closure rewritten as a method of a
 	// small struct) are first written as the closure they stand for - func(args) { return filler.insert(args) } - so that
@@ -123,6 +126,9 @@ func (w *World) foldRound(overlay map[string][]byte, st *foldState) map[string][
 				continue
 			}
 			if _, renamed := oldFuncName[fo.Origin()]; renamed {
+				continue
+			}
+			if _, moved := movedFuncObj[fo.Origin()]; moved {
 				continue
 			}
 			sig := fo.Type().(*types.Signature)
@@ -351,6 +357,9 @@ func (w *World) pruneFoldedHelpers(overlay map[string][]byte, tab *anchorTable) 
 					continue
 				}
 				if _, renamed := oldFuncName[fo.Origin()]; renamed {
+					continue
+				}
+				if _, moved := movedFuncObj[fo.Origin()]; moved {
 					continue
 				}
 				key := fo.Name()
@@ -733,6 +742,9 @@ func etaExpandMethodValues(fset *token.FileSet, info *types.Info, f *ast.File, s
 			return true
 		}
 		if _, renamed := oldFuncName[m.Origin()]; renamed {
+			return true
+		}
+		if _, moved := movedFuncObj[m.Origin()]; moved {
 			return true
 		}
 		qual := func(p *types.Package) string {
